@@ -152,6 +152,15 @@ class PH:
             root = root[1]
         fields = tuple(f for f in fields if f not in ("0",))  # `?` Continue payload
         if root[0] == "call":
+            # a selector method: `jumps.pattern_failed(flag)` hands out `&mut` access to one of the lists of its receiver --
+            # the collection is (part of) the receiver, not a new one
+            c = root[1]
+            rt = fn.local_tstr(c.dest[0]) or ""
+            if rt.startswith("&mut ") and c.args and _depth < 4 and _is_ph_collection(fn.crate, fn.local_ty(c.dest[0])) \
+                    and c.resolved in self.cx.F.fns and (fn.crate.tstr(c.arg_ty(0)) or "").startswith("&mut "):
+                k = self.coll_key(fn, c.args[0], _depth + 1)
+                if k is not None:
+                    return (k[0], k[1], tuple(k[2]) + ("*",) + fields)
             return ("call", root[1].bb, fields)
         if root[0] == "arg":
             return ("arg", root[1], fields)
@@ -279,6 +288,38 @@ def _struct_ph_fields(cx, crate, ty):
     return out
 
 
+def _closure_drains(cx, ph, fn):
+    """blocks of iterator-creating calls whose iterator is consumed by `try_for_each` / `for_each` with a closure that hands
+    its item to update_offset_placeholder (`list.iter().try_for_each(|p| self.update_offset_placeholder(*p))?`)"""
+    out = set()
+    for c in fn.calls():
+        if not c.is_("Iterator::try_for_each", "Iterator::for_each") or not c.args:
+            continue
+        patches = False
+        for name in c.cl or []:
+            g = cx.F.fns.get(name)
+            if g is None:
+                continue
+            dug = cx.du(g)
+            for c2 in g.calls():
+                if c2.short == UPDATE and len(c2.args) > 1:
+                    l2 = op_base(c2.args[1])
+                    rr = dug.root(l2) if l2 is not None else None
+                    if rr is not None and rr[0] == "field":
+                        rr = rr[1]
+                    if rr is not None and rr[0] == "arg" and rr[1] >= 2:
+                        patches = True
+        if not patches:
+            continue
+        l = op_base(c.args[0])
+        if l is None:
+            continue
+        for t in ph.origins(fn, l):
+            if t[0] == "iter":
+                out.add(t[1])
+    return out
+
+
 def _check_fn(cx, ph, fn):
     du = cx.du(fn)
     crate = fn.crate
@@ -298,6 +339,7 @@ def _check_fn(cx, ph, fn):
                 for t in ph.origins(fn, l):
                     if t[0] == "iter":
                         consumed_iters.add(t[1])
+    consumed_iters |= _closure_drains(cx, ph, fn)
     drains = {}
     for bb in consumed_iters:
         c = calls.get(bb)
@@ -433,7 +475,35 @@ def _check_fn(cx, ph, fn):
             if not any(b[0] == "dirty" and b[1] == k for b in bad):
                 bad.append(("dirty", k, bb, pathf()))
 
+    # `if let Some(p) = maybe_placeholder`: on the None outcome of a test of an Option<usize> that holds a placeholder
+    # obtained from a wrapper call there is nothing to patch
+    none_edges = {}
+    for b in fn.blocks:
+        if b.cleanup or b.term[0] != "switch":
+            continue
+        dl = op_base(b.term[1])
+        dd = du.single_def(dl) if dl is not None else None
+        if dd is None or dd[2] != "assign" or dd[3][0] != "discr" or dd[3][1][1]:
+            continue
+        hl = dd[3][1][0]
+        ts = fn.local_tstr(hl) or ""
+        if "Option<usize>" not in ts or "Result<" in ts:
+            continue
+        sites = {t[1] for t in ph.origins(fn, hl) if t[0] == "site"}
+        if not sites:
+            continue
+        listed = {v for v, _ in b.term[2]}
+        tg = {tb for v, tb in b.term[2] if v == 0}
+        if 0 not in listed and listed == {1}:
+            tg.add(b.term[3])
+        if tg:
+            none_edges[b.idx] = (sites, tg)
+
     def on_edge(bb, succ, st):
+        ne = none_edges.get(bb)
+        if ne is not None and succ in ne[1]:
+            live, dirty, rcls = st
+            st = (live - ne[0], dirty, rcls)
         ee = empty_edges.get(bb)
         if ee is not None and succ in ee[1]:
             live, dirty, rcls = st
@@ -515,6 +585,11 @@ def rule_match_order(cx, tier):
                         if k is not None and k[2]:
                             # the patch point is where the iteration over the list starts (the loop may run 0 times)
                             consumed.setdefault(k[2][-1], set()).add(t[1])
+    for bb in _closure_drains(cx, ph, fn):
+        it = fn.call_at(bb)
+        k = ph.coll_key(fn, it.args[0]) if it is not None and it.args else None
+        if k is not None and k[2]:
+            consumed.setdefault(k[2][-1], set()).add(bb)
     require(consumed, "R-MATCH-ORDER: no patch loop over any jump list found in compile_match_arm")
     missing = [need for need in ("alternative_end", "match_end", "arm_end") if need not in consumed]
     for need in missing:
@@ -665,6 +740,72 @@ def rule_match_target(cx, tier):
                         r.add(Finding("R-MATCH-TARGET", fn.qual, "nested:is_last_alternative-not-forwarded",
                                       "a nested MatchArmParameters is built without forwarding params.is_last_alternative",
                                       fn.file, line_of(fn, b.idx)))
+    # selector methods: `fn pattern_failed(&mut self, is_last_alternative: bool) -> &mut SmallVec<..>` on the placeholder
+    # struct choose the list by their bool parameter; inside them the same polarity is required, and every call from a pattern
+    # routine has to pass `params.is_last_alternative`
+    from .narrow import _switch_outcomes as _so
+    for g in cx.F.crate_fns("koto_bytecode"):
+        if g in subjects or g.kind == "Closure" or g.derived:
+            continue
+        if not any("MatchJumpPlaceholders" in (g.local_tstr(i) or "") for i in range(1, g.argc + 1)):
+            continue
+        bools = [i for i in range(1, g.argc + 1) if g.local_tstr(i) == "bool"]
+        gcfg = cx.cfg(g)
+        borrows = []
+        for b in g.blocks:
+            if b.cleanup:
+                continue
+            for stt in b.stmts:
+                if stt[0] == "a" and stt[2][0] == "ref" and stt[2][1] in ("mut", "two_phase", "unique"):
+                    fs = place_fields(stt[2][2])
+                    if fs and fs[-1] in want:
+                        borrows.append((fs[-1], b.idx))
+        if not borrows or not bools:
+            continue
+        tests = []
+        for b in g.blocks:
+            for (l, te, fe) in _so(cx, g, b) or []:
+                if l in bools:
+                    tests.append((l, b.idx, te, fe))
+        sel_param = None
+        for (f, bb) in borrows:
+            r.instances += 1
+            r.nontrivial += 1
+            sides = set()
+            for (l, sb, te, fe) in tests:
+                for name, es in (("true", te), ("false", fe)):
+                    if any((e == bb or gcfg.dominates(e, bb)) and set(gcfg.pred[e]) <= {sb} for e in es):
+                        sides.add(name)
+                        sel_param = l
+            if sides != {want[f]}:
+                r.add(Finding("R-MATCH-TARGET", g.qual, f"{f}:selector-polarity",
+                              f"the selector hands out jumps.{f} where its flag is not known to be {want[f]}", g.file,
+                              line_of(g, bb)))
+        if sel_param is None:
+            continue
+        for fn in subjects:
+            du = cx.du(fn)
+            params = [i for i in range(1, fn.argc + 1) if "MatchArmParameters" in (fn.local_tstr(i) or "")]
+            for c in fn.calls():
+                if c.resolved != g.name or len(c.args) < sel_param:
+                    continue
+                r.instances += 1
+                r.nontrivial += 1
+                per_field["arm_end"] += 1
+                per_field["alternative_end"] += 1
+                pl = op_place(c.args[sel_param - 1])
+                for _ in range(4):
+                    if pl is None or pl[1]:
+                        break
+                    d = du.single_def(pl[0])
+                    pl = op_place(d[3][1]) if d is not None and d[2] == "assign" and d[3][0] == "use" else None
+                ok = pl is not None and pl[0] in params and place_fields(pl) == ["is_last_alternative"]
+                r.sample({"fn": fn.qual.rsplit("::", 1)[-1], "selector": g.qual.rsplit("::", 1)[-1], "line": c.line,
+                          "flag_is_is_last_alternative": ok})
+                if not ok:
+                    r.add(Finding("R-MATCH-TARGET", fn.qual, f"selector-flag:{g.qual.rsplit('::', 1)[-1]}",
+                                  f"the list for a mismatch jump is chosen by {g.qual.rsplit('::', 1)[-1]}() with a flag that is "
+                                  f"not `params.is_last_alternative`", fn.file, c.line))
     r.floor("filings in jumps.arm_end", per_field["arm_end"], 3)
     r.floor("filings in jumps.alternative_end", per_field["alternative_end"], 3)
     r.analysed = {"routines": [f.qual.rsplit("::", 1)[-1] for f in subjects], **per_field}
